@@ -358,6 +358,10 @@ pub fn check(c: &Case) -> CheckResult {
         }
         for j in 0..=i {
             let g = set.get(j);
+            // the owned copy of an entry is the same value as the sequence that was added
+            if i == c.set.len() - 1 {
+                same(&format!("PackedDnaStringSet entry {} to_owned()", j), &g.to_owned(), &c.set[j])?;
+            }
             if g.bytes() != c.set[j] || g.len() != c.set[j].len() {
                 return Err(format!(
                     "PackedDnaStringSet: sequence {} reads back as {} after adding sequence {}, want {}",
